@@ -162,3 +162,181 @@ pub fn probe(args: &[String]) {
 	}
 	println!("{}", json!({"kind":"probe","law":law,"violations":bad}));
 }
+
+// ---------------------------------------------------------------------------------------------------------------
+// `yv action-steps <out.ndjson> [f32-stride]`: From<f32> / From<f64> as a STEP FUNCTION of the bit pattern.
+// Every non-NaN f32 pattern is visited in numeric order (-inf .. -0, +0 .. +inf; 4 278 190 082 patterns) and the
+// maximal runs of equal results are recorded with their two end points as exact dyadic rationals m * 2^e; all NaN
+// patterns are visited too.  For f64 the same is done on windows of +-W patterns around every rational break
+// point (2k+1)/510, every fixed point k/255, +-1, +-0 (subnormals) and the two ends of the line.
+// Trace_ActionSteps.tla decides every run from its end points with exact integer arithmetic.
+
+fn limbs16(mut o: u64, n: usize) -> Vec<u64> {
+	let mut v = Vec::with_capacity(n);
+	for _ in 0..n {
+		v.push(o & 0xFFFF);
+		o >>= 16;
+	}
+	v
+}
+fn limbs1e4(mut m: u64) -> Vec<u64> {
+	let mut v = Vec::new();
+	while m > 0 {
+		v.push(m % 10000);
+		m /= 10000;
+	}
+	v
+}
+const H32: u64 = 0x7F80_0001; // non-NaN patterns of one sign (f32)
+const H64: u64 = 0x7FF0_0000_0000_0001;
+fn bits32(o: u64) -> u32 {
+	if o < H32 { 0x8000_0000 | (H32 - 1 - o) as u32 } else { (o - H32) as u32 }
+}
+fn bits64(o: u128) -> u64 {
+	let h = H64 as u128;
+	if o < h { 0x8000_0000_0000_0000 | (h - 1 - o) as u64 } else { (o - h) as u64 }
+}
+fn ord64(b: u64) -> u128 {
+	let h = H64 as u128;
+	if b >> 63 == 1 { h - 1 - (b & 0x7FFF_FFFF_FFFF_FFFF) as u128 } else { h + b as u128 }
+}
+fn point32(o: u64) -> Value {
+	let b = bits32(o);
+	let (neg, ex, ma) = (b >> 31 == 1, ((b >> 23) & 0xFF) as i64, (b & 0x7F_FFFF) as u64);
+	let (cls, m, e) = if ex == 255 { ("inf", 0, 0) } else if ex == 0 { ("fin", ma, -149) } else { ("fin", ma | 1 << 23, ex - 150) };
+	json!({"o": limbs16(o, 2), "neg": neg, "cls": cls, "m": limbs1e4(m), "e": e, "bits": format!("{b:08x}")})
+}
+fn point64(o: u128) -> Value {
+	let b = bits64(o);
+	let (neg, ex, ma) = (b >> 63 == 1, ((b >> 52) & 0x7FF) as i64, b & 0xF_FFFF_FFFF_FFFF);
+	let (cls, m, e) = if ex == 2047 { ("inf", 0, 0) } else if ex == 0 { ("fin", ma, -1074) } else { ("fin", ma | 1 << 52, ex - 1075) };
+	let lo = (o & 0xFFFF_FFFF_FFFF_FFFF) as u64;
+	let mut ol = limbs16(lo, 4);
+	ol.push((o >> 64) as u64);
+	json!({"o": ol, "neg": neg, "cls": cls, "m": limbs1e4(m), "e": e, "bits": format!("{b:016x}")})
+}
+fn act32(o: u64, form: u8) -> i64 {
+	let v = f32::from_bits(bits32(o));
+	catch(|| code(match form { 0 => Action::from(v), 1 => Action::from(Some(v)), _ => Action::from(&v) })).unwrap_or(9999)
+}
+fn act64(o: u128, form: u8) -> i64 {
+	let v = f64::from_bits(bits64(o));
+	catch(|| code(match form { 0 => Action::from(v), 1 => Action::from(Some(v)), _ => Action::from(&v) })).unwrap_or(9999)
+}
+
+pub fn steps(args: &[String]) {
+	use std::io::Write;
+	let mut f = std::io::BufWriter::new(std::fs::File::create(&args[0]).unwrap());
+	let w64: u128 = args.get(1).and_then(|s| s.parse().ok()).unwrap_or(3000);
+	// ---- f32: every pattern, 16 threads over contiguous ordinal ranges; the Option / reference forms on every 251st
+	let n32 = 2 * H32;
+	let nthreads = 16u64;
+	let chunks: Vec<(u64, u64)> = (0..nthreads).map(|i| (n32 * i / nthreads, n32 * (i + 1) / nthreads)).collect();
+	let parts: Vec<(Vec<(u64, u64, i64)>, u64)> = std::thread::scope(|s| {
+		let hs: Vec<_> = chunks.iter().map(|&(a, b)| s.spawn(move || {
+			let mut runs: Vec<(u64, u64, i64)> = Vec::new();
+			let mut forms_bad = 0u64;
+			let (mut lo, mut cur) = (a, act32(a, 0));
+			for o in a + 1..b {
+				let c = act32(o, 0);
+				if o % 251 == 0 && (act32(o, 1) != c || act32(o, 2) != c) {
+					forms_bad += 1;
+				}
+				if c != cur {
+					runs.push((lo, o - 1, cur));
+					lo = o;
+					cur = c;
+				}
+			}
+			runs.push((lo, b - 1, cur));
+			(runs, forms_bad)
+		})).collect();
+		hs.into_iter().map(|h| h.join().unwrap()).collect()
+	});
+	let mut runs: Vec<(u64, u64, i64)> = Vec::new();
+	let mut forms_bad = 0;
+	for (p, fb) in parts {
+		forms_bad += fb;
+		for r in p {
+			match runs.last_mut() {
+				Some(l) if l.2 == r.2 && l.1 + 1 == r.0 => l.1 = r.1,
+				_ => runs.push(r),
+			}
+		}
+	}
+	writeln!(f, "{}", json!({"ev":"group","ty":"f32","grp":"f32:all","from":limbs16(0,2),"to":limbs16(n32-1,2),"full":true,"forms_bad":forms_bad})).unwrap();
+	for (lo, hi, c) in &runs {
+		writeln!(f, "{}", json!({"ev":"run","ty":"f32","grp":"f32:all","lo":point32(*lo),"hi":point32(*hi),"act":c})).unwrap();
+	}
+	writeln!(f, "{}", json!({"ev":"end","ty":"f32","grp":"f32:all","to":limbs16(n32-1,2)})).unwrap();
+	// NaN patterns: 2 * (2^23 - 1)
+	let (mut cnt, mut bad) = (0u64, 0u64);
+	for sign in [0u32, 0x8000_0000] {
+		for ma in 1..(1u32 << 23) {
+			let v = f32::from_bits(sign | 0x7F80_0000 | ma);
+			cnt += 1;
+			if catch(|| code(Action::from(v))).unwrap_or(9999) != 600 || (ma % 251 == 0 && catch(|| code(Action::from(Some(v)))).unwrap_or(9999) != 600) {
+				bad += 1;
+			}
+		}
+	}
+	writeln!(f, "{}", json!({"ev":"nan","ty":"f32","count":cnt,"bad":bad})).unwrap();
+	let mut total_runs = runs.len();
+	// ---- f64: windows around the interesting reals
+	let mut centres: Vec<(String, f64)> = Vec::new();
+	for k in 0..=255i64 {
+		centres.push((format!("fix{k}"), k as f64 / 255.0));
+		centres.push((format!("brk{k}"), (2 * k + 1) as f64 / 510.0));
+	}
+	for (n, v) in [("one", 1.0f64), ("zero", 0.0), ("inf", f64::INFINITY), ("minpos", f64::MIN_POSITIVE), ("tiny", 1e-40), ("half", 0.5), ("big", 1e30)] {
+		centres.push((n.to_string(), v));
+	}
+	let n64 = 2 * H64 as u128;
+	let mut patterns64 = 0u128;
+	for (name, v) in centres {
+		for sign in [1.0f64, -1.0] {
+			let c = ord64((v * sign).to_bits());
+			let (a, b) = (c.saturating_sub(w64), (c + w64).min(n64 - 1));
+			let grp = format!("f64:{}{}", if sign < 0.0 { "-" } else { "+" }, name);
+			let mut rs: Vec<(u128, u128, i64)> = Vec::new();
+			let (mut lo, mut cur) = (a, act64(a, 0));
+			for o in a + 1..=b {
+				let cc = act64(o, 0);
+				if o % 7 == 0 && (act64(o, 1) != cc || act64(o, 2) != cc) {
+					forms_bad += 1;
+				}
+				if cc != cur {
+					rs.push((lo, o - 1, cur));
+					lo = o;
+					cur = cc;
+				}
+			}
+			rs.push((lo, b, cur));
+			patterns64 += b - a + 1;
+			let pa = point64(a);
+			let pb = point64(b);
+			writeln!(f, "{}", json!({"ev":"group","ty":"f64","grp":grp,"from":pa["o"],"to":pb["o"],"full":false,"forms_bad":forms_bad})).unwrap();
+			for (lo, hi, c) in &rs {
+				writeln!(f, "{}", json!({"ev":"run","ty":"f64","grp":grp,"lo":point64(*lo),"hi":point64(*hi),"act":c})).unwrap();
+			}
+			writeln!(f, "{}", json!({"ev":"end","ty":"f64","grp":grp,"to":pb["o"]})).unwrap();
+			total_runs += rs.len();
+		}
+	}
+	// f64 NaN patterns: a sample of payloads, both signs
+	let (mut cnt, mut bad) = (0u64, 0u64);
+	for sign in [0u64, 1 << 63] {
+		for i in 0..52 {
+			for ma in [1u64 << i, (1u64 << i) | 1, (1u64 << 52) - 1 - (1u64 << i).min((1 << 52) - 2)] {
+				let v = f64::from_bits(sign | 0x7FF0_0000_0000_0000 | ma.max(1));
+				cnt += 1;
+				if catch(|| code(Action::from(v))).unwrap_or(9999) != 600 {
+					bad += 1;
+				}
+			}
+		}
+	}
+	writeln!(f, "{}", json!({"ev":"nan","ty":"f64","count":cnt,"bad":bad})).unwrap();
+	f.flush().unwrap();
+	println!("{}", json!({"kind":"summary","f32_patterns":n32,"f32_nan_patterns":2*((1u64<<23)-1),"f64_patterns":patterns64 as u64,"runs":total_runs,"forms_bad":forms_bad}));
+}
